@@ -6,6 +6,7 @@ CONSTANTS
   L = 4
   Dim = 1
   Periodic = TRUE
+  OpenAxes = {}
   Radii = {1}
   MaxPer = 2
   NFrames = 3
